@@ -185,7 +185,29 @@ impl H {
         tag
     }
 
+    /// A-HANDSHAKE: the three preconditions under which E-V verifies apply_session_present_to_connection / handle_connack
+    /// (DESIGN.md 6); evaluated on the real engine every time the harness delivers a CONNACK in state PendingConnack
+    pub fn check_connack_ready(&self) -> Result<(), String> {
+        let s = &self.ps;
+        if s.state != ProtocolStateType::PendingConnack { return Ok(()); }
+        let connect_flushed = !s.high_priority_operation_queue.iter().chain(s.pending_write_completion_operations.iter()).chain(s.current_operation.iter())
+            .any(|id| s.operations.get(id).map(|op| matches!(&*op.packet, MqttPacket::Connect(_))).unwrap_or(false));
+        if !connect_flushed { return Ok(()); }          // the engine refuses such a CONNACK (F-CONNACK-EARLY); nothing to assume
+        if !s.high_priority_operation_queue.is_empty() || !s.pending_publish_operations.is_empty() || !s.pending_non_publish_operations.is_empty()
+            || !s.operation_ack_timeouts.is_empty() || !s.pending_write_completion_operations.is_empty() { return Err("A-HANDSHAKE: handshake_quiet does not hold at CONNACK".into()); }
+        for id in s.resubmit_operation_queue.iter() {
+            if let Some(op) = s.operations.get(id) { if !matches!(&*op.packet, MqttPacket::Publish(_)) { return Err(format!("A-HANDSHAKE: non-publish operation {} in the retransmission queue", id)); } }
+        }
+        for (k, op) in s.operations.iter() {
+            if op_packet_id(op).is_some() && !s.resubmit_operation_queue.contains(k) && !s.user_operation_queue.contains(k) {
+                return Err(format!("A-HANDSHAKE: operation {} holds packet id {:?} but is in neither the retransmission nor the user queue", k, op_packet_id(op)));
+            }
+        }
+        Ok(())
+    }
+
     pub fn connack(&mut self, session_present: bool, receive_maximum: Option<u16>) -> GneissResult<()> {
+        if let Err(e) = self.check_connack_ready() { panic!("{}", e); }
         self.deliver(MqttPacket::Connack(ConnackPacket { session_present, receive_maximum, ..Default::default() }), 1 << 20)
     }
 
